@@ -4,7 +4,7 @@ LEVEL = "model_checking"
 
 
 def run(ctx):
-    sqlprop.run_sql_property(ctx, corpus=['cjoins', 'agg', 'big', 'aggwide'], seeded=[], cfgs=sqlprop.LAYOUTS, quick_n=70, thorough_n=1200,
+    sqlprop.run_sql_property(ctx, corpus=['cjoins', 'agg', 'big', 'aggwide', 'noalias'], seeded=[], cfgs=sqlprop.LAYOUTS, quick_n=70, thorough_n=1200,
         envs=None, cross=sqlprop.cross_success_consistency(),
         rule='Each (statement, database) of the corpus is run with the table registered in memory and as Parquet in several file/row-group layouts, plus the streaming-scan and no-prescan planner paths (verification switches); every outcome is judged by TLC against SqlSem, and a statement answering under one layout must not error under another.')
 
